@@ -770,15 +770,20 @@ def gen_predefined(rng, models, per_class):
             # documented options of CouplingMPOModel.init_lattice: order of the sites, another lattice (name)
             if rng.random() < 0.3:
                 geo['order'] = rng.choice(['default', 'snake', 'Cstyle', 'Fstyle', 'folded'])
-            if rng.random() < 0.25:
-                geo['lattice'] = rng.choice(['Chain', 'Ladder', 'Square', 'Triangular', 'Honeycomb'])
-                geo['Ly'] = 2
-                geo['L'] = min(geo['L'], 3)
-            for cv in CONS_VARIANTS:
+            other_lattice = None
+            if rng.random() < 0.3:
+                other_lattice = {'lattice': rng.choice(['Chain', 'Ladder', 'Square', 'Triangular', 'Honeycomb']), 'Ly': 2, 'L': min(geo['L'], 3)}
+            for cv in CONS_VARIANTS + ([CONS_VARIANTS[0], CONS_VARIANTS[1]] if other_lattice else []):
                 params = dict(num)
                 params.update(geo)
                 params.update(cv)
-                c = {'kind': 'predefined', 'module': modname, 'cls': cls, 'params': params, 'family': 'P%d' % fid,
+                fam_ = 'P%d' % fid
+                nvar_ = sum(1 for c_ in cases if c_['family'] in (fam_, fam_ + 'L'))
+                if nvar_ >= len(CONS_VARIANTS):
+                    # (additional family: the same parameters on another lattice given by name; many classes fix their lattice)
+                    params.update(other_lattice)
+                    fam_ += 'L'
+                c = {'kind': 'predefined', 'module': modname, 'cls': cls, 'params': params, 'family': fam_,
                      'variant': str(cv.get('conserve')), 'nwin': 2, 'psi_seed': rng.randrange(10 ** 6)}
                 L = params['L']
                 if rng.random() < 0.5:
